@@ -917,6 +917,108 @@ def to_violation(c, o) -> Violation:
                      what=what, sig=dict(clause=clause, **extra))
 
 
+
+# ------------------------------------------------------------------------------------------ differential judgement
+# When model and implementation disagree about the content of a bucket at the END of a step although the step began
+# with the bucket observed empty, the question for this property is whether the container really was empty: the same
+# writes are made in the only step of a run on a fresh detector (the control); if they leave something else there, what
+# the step's models found depended on what happened before the step -- a piece of state that empty() did not reset.
+
+
+def control_of(c, i):
+    """The writes of step i of case c as the only step of a one-readout run on a fresh detector."""
+    e = eff(c)
+    entry = e.get("entry") if e.get("entry") in ENTRIES else "run_mode"
+    return dict(form="list", times=[hx(1.0)], start=hx(0.0), nd=final_nd(c), ops=[], history="fresh",
+                wgroup=e.get("wgroup", "charge_collection"), rows=c.get("rows", 2), cols=c.get("cols", 3), entry=entry,
+                detector=c.get("detector", "ccd"), plan=[e.get("plan", [])[i]])
+
+
+def emit_differential(items) -> str:
+    body = ";\n  ".join(f"({core.cbool(bool(nd))}, ({cdet(a)}, {cdet(b)}))" for nd, a, b in items)
+    return ("From Coq Require Import ZArith List.\nFrom PyxelV Require Import Model.Exposure.\nImport ListNotations.\n"
+            f"Definition pairs : list (bool * (det Z * det Z)) := [\n  {body}\n].\n"
+            "Eval vm_compute in history_dependent pairs.\n")
+
+
+def differential_eval(ctx: Ctx, cands, tag="dif"):
+    """cands: [(case, observation of the case, step index)].  Runs the control of each and asks Coq whether the end
+    of the step differs from the end of its control.  Returns [(case, obs, i, control case, control obs)] that do."""
+    cands = [(c, o, i) for c, o, i in cands if o.get("stage") is None and i < len(o.get("obs") or [])
+             and i < len(eff(c).get("plan", []))]
+    if not cands:
+        return []
+    controls = [control_of(c, i) for c, _, i in cands]
+    outs = core.run_driver(ctx, "c02", controls, workers=8)
+    items, kept = [], []
+    for (c, o, i), cc, co in zip(cands, controls, outs):
+        if "crash" in co or "driver_error" in co or co.get("stage") is not None or len(co.get("obs") or []) != 1:
+            continue
+        items.append((final_nd(c), o["obs"][i]["end"], co["obs"][0]["end"]))
+        kept.append((c, o, i, cc, co))
+    if not items:
+        return []
+    ok, evals, se = core.coq_eval(ctx, tag, emit_differential(items))
+    if not ok or len(evals) != 1:
+        ctx.log("differential case file did not evaluate:", core.tail(se, 8))
+        return []
+    return [kept[k] for k in core.parse_int_list(evals[0])]
+
+
+def run_plain(ctx: Ctx, cases):
+    payload = [{k: v for k, v in c.items() if k not in ("malformed", "path", "view", "judge_all", "sweep_value",
+                                                        "differential_step")} for c in cases]
+    return core.run_driver(ctx, "c02", payload, workers=8)
+
+
+def differential(ctx: Ctx, mism, budget=16):
+    """Mismatching runs -> violations `step_end_depends_on_earlier_steps` (with a two-step replay when possible)."""
+    cands = []
+    for c, o in mism:
+        if o.get("stage") is not None or str(c.get("entry", "")).startswith("observation") or c.get("float"):
+            continue
+        plan = eff(c).get("plan", [])
+        steps = [i for i in range(min(len(plan), len(o.get("obs") or []))) if plan[i]
+                 and (i > 0 or c.get("history", "fresh") != "fresh" or c.get("pre"))]
+        for i in steps[:3]:
+            cands.append((c, o, i))
+        if len(cands) >= budget:
+            break
+    found = differential_eval(ctx, cands[:budget])
+    ctx.count("differential_controls_run", len(cands[:budget]))
+    done = set()
+    for c, o, i, cc, co in found:
+        if len(done) >= 3:
+            break
+        # shrink: the previous step's writes and this step's writes alone, on a fresh detector
+        small = None
+        if i > 0:
+            plan = eff(c).get("plan", [])
+            two = dict(control_of(c, i), times=[hx(1.0), hx(2.0)], plan=[plan[i - 1], plan[i]])
+            o2 = run_plain(ctx, [two])[0]
+            if "crash" not in o2 and "driver_error" not in o2 and differential_eval(ctx, [(two, o2, 1)], tag="dif2"):
+                small = (two, o2, 1)
+        c1, o1, i1 = small or (c, o, i)
+        got, exp = o1["obs"][i1]["end"], co["obs"][0]["end"]
+        diff = sorted(k for k in PIECES if got.get(k) != exp.get(k) and not (k == "pixel" and final_nd(c1)))
+        key = ",".join(diff)
+        if key in done:
+            continue
+        done.add(key)
+        case = dict({k: v for k, v in c1.items() if k != "judge_all"}, differential_step=i1)
+        ctx.violations.append(Violation(
+            clause="step_end_depends_on_earlier_steps", case=case,
+            observed=dict(end_of_step=got, end_of_the_same_writes_alone_on_a_fresh_detector=exp),
+            expected="a container that is empty at the start of a step behaves as an empty one: the writes of the step "
+                     "leave in it what they leave in the only step of a run on a fresh detector",
+            what=f"step {i1}: the writes {eff(c1)['plan'][i1]} leave {', '.join(f'{k}={got.get(k)}' for k in diff)}; made alone in "
+                 f"a one-readout run on a fresh detector they leave {', '.join(f'{k}={exp.get(k)}' for k in diff)} -- the "
+                 f"container kept something of "
+                 + (f"step {i1 - 1} ({eff(c1)['plan'][i1 - 1]})" if i1 > 0 else f"the detector's history ({c1.get('history')})")
+                 + " that empty() did not reset (state outside the attributes the emptiness test looks at)",
+            sig=dict(clause="step_end_depends_on_earlier_steps", pieces=key)))
+
+
 # ------------------------------------------------------------------------------------------ legs
 
 PER_FILE = 80
@@ -967,7 +1069,7 @@ def expand(c, o):
 
 def evaluate(ctx: Ctx, cases, tag="c", count=True):
     """Run implementation + Coq on the cases. Returns (mismatching, violating, pairs)."""
-    payload = [dict({k: v for k, v in c.items() if k not in ("malformed", "path", "view", "judge_all", "sweep_value")},
+    payload = [dict({k: v for k, v in c.items() if k not in ("malformed", "path", "view", "judge_all", "sweep_value", "differential_step")},
                     all_runs=bool(c.get("judge_all"))) for c in cases]
     # run_driver hands contiguous slices to its workers: interleave, so that the expensive kinds of cases (sessions,
     # observations) are spread over all of them
@@ -1235,6 +1337,8 @@ def run(ctx: Ctx):
                         first_clock=(o["obs"][0]["clock"] if o.get("obs") else None)))
     (ctx.build / "mismatches.json").write_text(json.dumps([dict(case=c, observed=o) for c, o in mism], indent=1))
     record(ctx, mism, viol)
+    if ctx.broken and mism and not new_violations(ctx):
+        differential(ctx, mism)
     if ctx.broken and not new_violations(ctx):
         search(ctx)
 
@@ -1251,11 +1355,14 @@ def search(ctx: Ctx):
     for _ in range(400):
         cases.append(gen_valid_case(r))
     cases += gen_fill_cases(r)
-    cases += gen_fill_exhaustive()
+    if not ctx.quick:
+        cases += gen_fill_exhaustive()
     cases += gen_sessions(r, 150)
     mism, viol, pairs = evaluate(ctx, cases, tag="s")
     ctx.cov["search_cases"] = len(pairs)
     record(ctx, [], viol)
+    if mism and not new_violations(ctx):
+        differential(ctx, mism)
 
 
 def replay(ctx: Ctx, rp: dict) -> int:
@@ -1274,6 +1381,19 @@ def replay(ctx: Ctx, rp: dict) -> int:
     (gen / "Gen_C02.v").write_text(text)
     core.ensure_lib(ctx, targets=["theories/Model/Exposure.vo", "theories/Model/ExposureF.vo"])
     core.coqc(ctx, gen / "Gen_C02.v", [(gen, "PyxelGen")])
+    if case.get("differential_step") is not None:
+        i = int(case["differential_step"])
+        base = {k: v for k, v in case.items() if k != "differential_step"}
+        o = run_plain(ctx, [base])[0]
+        print("case:", json.dumps(case))
+        print("implementation now does:", json.dumps(o)[:1500])
+        if "crash" in o or "driver_error" in o or o.get("stage") is not None:
+            print("the run did not complete")
+            return 1
+        bad = bool(differential_eval(ctx, [(base, o, i)], tag="replay_dif"))
+        print("step", i, "vs. the same writes alone on a fresh detector (judged in Coq):",
+              "DIFFERENT -- VIOLATED" if bad else "same -- holds")
+        return 1 if bad else 0
     payload = {k: v for k, v in case.items() if k not in ("malformed", "path", "view", "sweep_value", "judge_all")}
     o = core.run_driver(ctx, "c02", [payload], workers=1)[0]
     print("case:", json.dumps(case))
